@@ -44,7 +44,38 @@ def instances(tier, seed):
                         perm=perm, has_dir=has_dir, has_ref=has_ref, type=ty))
     for arch in (0, 1):
         out.append(dict(label=f'evaluate arch={arch}', kind='evaluate', arch=arch))
+        out.append(dict(label=f'evaluate arch={arch} values already stored on the design space graph', kind='evaluate',
+                        arch=arch, prestore=True))
+    for a1, a2 in itertools.product((0, 1), repeat=2):
+        out.append(dict(label=f'evaluate_twice arch {a1} then {a2} (one evaluator)', kind='evaluate_seq', archs=[a1, a2]))
     out.append(dict(label='order_stable', kind='order'))
+    # several metric nodes at once: every configuration (first by name) next to representative second nodes, and back
+    cfgs = [dict(perm=pm, has_dir=hd, has_ref=hr, type=ty)
+            for pm, hd, hr, ty in itertools.product((True, False), (True, False), (True, False), TYPES)]
+    reps = [dict(perm=True, has_dir=True, has_ref=True, type=None),     # ambiguous, undeclared: must be rejected
+            dict(perm=True, has_dir=True, has_ref=True, type='OBJECTIVE'),
+            dict(perm=True, has_dir=True, has_ref=True, type='CONSTRAINT'),
+            dict(perm=True, has_dir=True, has_ref=False, type=None),    # objective only
+            dict(perm=False, has_dir=True, has_ref=True, type=None),    # constraint only
+            dict(perm=True, has_dir=True, has_ref=True, type='NONE')]
+    pairs = []
+    if tier == 'thorough':
+        pairs = [(a, b) for a in cfgs for b in cfgs]
+    else:
+        for a in cfgs:
+            for b in reps:
+                pairs.append((a, b))
+        for a in reps:
+            for b in cfgs:
+                if (a, b) not in pairs:
+                    pairs.append((a, b))
+    def lab(c):
+        return f"{'perm' if c['perm'] else 'cond'}/{'dir' if c['has_dir'] else '-'}/{'ref' if c['has_ref'] else '-'}/{c['type']}"
+    for a, b in pairs:
+        out.append(dict(label=f'classify_pair M1={lab(a)} M2={lab(b)}', kind='classify_multi', nodes=[a, b]))
+    trip = [reps[1], reps[0], reps[4]], [reps[5], reps[3], reps[0]], [reps[2], reps[4], reps[3]], [reps[3], reps[2], reps[1]]
+    for t in trip:
+        out.append(dict(label='classify_triple '+' '.join(lab(c) for c in t), kind='classify_multi', nodes=list(t)))
     return out
 
 
@@ -184,6 +215,108 @@ def _run_classify(inst, res):
     res['sample'] = dict(harness=inst['label'], expected_role=want, paths=[dict(pc=str(p.pc), outcome=str(p.value)[:200]) for p in ex.paths])
 
 
+def _mk_multi_graph(nodes, ds, rs):
+    """R -c-> [A, B]; metric i ('M1', 'M2', ...) under R (perm) or under option B"""
+    from adsg_core import BasicDSG, NamedNode, MetricNode
+    g = BasicDSG()
+    root, a, b = NamedNode('R'), NamedNode('A'), NamedNode('B')
+    g.add_selection_choice('C', root, [a, b])
+    ms = []
+    # inserted in reverse order: the listing order must not depend on it
+    for i in reversed(range(len(nodes))):
+        m = MetricNode(f'M{i+1}', direction=ds[i], ref=rs[i], type_=_mtype(nodes[i]['type']))
+        g.add_edges([(root if nodes[i]['perm'] else b, m)])
+        ms.insert(0, m)
+    g = g.set_start_nodes({root})
+    return g, ms
+
+
+def _multi_outcome(nodes, ds, rs):
+    from adsg_core import DSGEvaluator
+    g, ms = _mk_multi_graph(nodes, ds, rs)
+    ev = DSGEvaluator(g)
+    try:
+        objs, cons = ev.objectives, ev.constraints
+    except RuntimeError:
+        return 'error', None, None
+    idx = {id(m): i for i, m in enumerate(ms)}
+    return 'ok', [(idx.get(id(o.node), -1), o.sign) for o in objs], [(idx.get(id(c.node), -1), c.sign, c.ref) for c in cons]
+
+
+def _multi_expected(nodes):
+    roles = [_expected(c['perm'], c['has_dir'], c['has_ref'], c['type']) for c in nodes]
+    if 'error' in roles:
+        return 'error', roles
+    return 'ok', roles
+
+
+def _run_classify_multi(inst, res):
+    nodes = inst['nodes']
+    ds = [sym_int(f'dir{i+1}') if c['has_dir'] else None for i, c in enumerate(nodes)]
+    rs = [sym_real(f'ref{i+1}') if c['has_ref'] else None for i, c in enumerate(nodes)]
+    ex = explore(lambda: _multi_outcome(nodes, ds, rs))
+    absorb(res, ex)
+    if not ex.complete:
+        res['status'] = INCONCLUSIVE
+        res['notes'].append(ex.status)
+        return
+    require_exhaustive(res, ex)
+    want_status, roles = _multi_expected(nodes)
+    cfg = dict(nodes=nodes)
+    for p in ex.paths:
+        res['obligations'] += 1
+        s = z3.Solver()
+        s.add(p.cond())
+        assert str(s.check()) == 'sat'
+        mdl = s.model()
+        dv = [model_int(mdl, d) if d is not None else None for d in ds]
+        rv = [model_int(mdl, r) if r is not None else None for r in rs]
+        inputs = dict(dirs=dv, refs=rv)
+        if p.kind == 'exc':
+            _viol(res, 'classify_multi', dict(kind='raises', **cfg), cfg, inputs, repr(p.exc), [want_status, roles])
+            continue
+        status, objs, cons = p.value
+        bad = None
+        if status != want_status:
+            bad = f'{status}, contract says {want_status} (roles {roles})'
+        elif status == 'ok':
+            want_o = [i for i, r in enumerate(roles) if r == 'obj']
+            want_c = [i for i, r in enumerate(roles) if r == 'con']
+            if [o[0] for o in objs] != want_o or [c[0] for c in cons] != want_c:
+                bad = f'objectives {[o[0] for o in objs]} constraints {[c[0] for c in cons]}, contract: {want_o} / {want_c} (by name)'
+            else:
+                claims = []
+                for i, sign in objs:
+                    claims.append((ds[i].e <= 0) == z3.BoolVal(sign == -1))
+                    if sign not in (-1, 1):
+                        bad = f'sign {sign}'
+                for i, sign, ref in cons:
+                    claims.append(z3.And((ds[i].e <= 0) == z3.BoolVal(sign == -1), z3val(ref) == rs[i].e))
+                if claims and not bad:
+                    s2 = z3.Solver()
+                    s2.add(p.cond(), z3.Not(z3.And(*claims)))
+                    if str(s2.check()) != 'unsat':
+                        bad = 'sign / reference of an objective or constraint does not follow its own node'
+        nat = _multi_native(nodes, dv, rv)
+        if bad:
+            _viol(res, 'classify_multi', dict(kind='contract', **cfg), cfg, inputs, dict(symbolic=bad, native=repr(nat)), [want_status, roles])
+        else:
+            res['discharged'] += 1
+        if nat[0] != status or (status == 'ok' and ([o[0] for o in nat[1]] != [o[0] for o in objs] or [c[0] for c in nat[2]] != [c[0] for c in cons])):
+            res['status'] = HARNESS_ERROR
+            res['notes'].append(f'concolic mismatch: {inputs}: path {p.value}, native {nat}')
+        res['validated'] += 1
+    res['sample'] = dict(harness=inst['label'], expected=[want_status, roles], paths=[dict(pc=str(p.pc), outcome=str(p.value)[:200]) for p in ex.paths[:4]])
+
+
+def _multi_native(nodes, dv, rv):
+    def num(x):
+        if isinstance(x, dict):
+            return x['float']
+        return x
+    return _multi_outcome(nodes, [num(d) for d in dv], [float(num(r)) if r is not None else None for r in rv])
+
+
 def _mk_eval_graph(refs):
     """R -> MO (objective, permanent), R -> MC (constraint, permanent), B -> MK (constraint, conditional: option B)"""
     from adsg_core import BasicDSG, NamedNode, MetricNode, MetricType
@@ -203,10 +336,15 @@ def _run_evaluate(inst, res):
     arch = inst['arch']
     refs = [sym_real('ref_c'), sym_real('ref_k')]
     vals = [sym_real('v_o'), sym_real('v_c'), sym_real('v_k')]
+    stale = [sym_real('s_o'), sym_real('s_c'), sym_real('s_k')]
+    prestore = bool(inst.get('prestore'))
     n_obl = 0
     for behaviour in itertools.product(('given', 'missing', 'nan'), repeat=3):
         def run():
             g, choice, opts, metrics = _mk_eval_graph(refs)
+            if prestore:  # values left on the design space graph by earlier use: instances inherit the dict
+                for m_, s_ in zip(metrics, stale):
+                    g.set_metric_value(m_, s_)
 
             class Ev(DSGEvaluator):
                 def _evaluate(self, dsg, metric_nodes):
@@ -262,21 +400,133 @@ def _run_evaluate(inst, res):
                     if not ok:
                         problems.append(f'metric_values[{m}] = {got}, expected {w}')
         if problems:
-            _viol(res, 'evaluate', dict(kind='evaluate', arch=arch, behaviour=list(behaviour)), dict(arch=arch),
-                  dict(behaviour=list(behaviour)), problems, 'documented evaluate contract')
+            _viol(res, 'evaluate', dict(kind='evaluate', arch=arch, behaviour=list(behaviour), prestore=prestore),
+                  dict(arch=arch, prestore=prestore), dict(behaviour=list(behaviour)), problems, 'documented evaluate contract')
         res['validated'] += 1
     # concolic: native run with numbers
-    nat = _evaluate_native(arch, ('given', 'missing', 'nan'), [1.5, -2.25], [3., 4., 5.])
+    nat = _evaluate_native(arch, ('given', 'missing', 'nan'), [1.5, -2.25], [3., 4., 5.], prestore=prestore)
     want_nat = ([3.], [math.nan, math.nan if arch == 1 else -2.25])
     if repr(nat) != repr(want_nat):
-        _viol(res, 'evaluate', dict(kind='evaluate_native', arch=arch), dict(arch=arch),
+        _viol(res, 'evaluate', dict(kind='evaluate_native', arch=arch, prestore=prestore), dict(arch=arch, prestore=prestore),
               dict(behaviour=['given', 'missing', 'nan']), repr(nat), repr(want_nat))
     res['sample'] = dict(harness=inst['label'], behaviours=27, value_obligations=n_obl)
 
 
-def _evaluate_native(arch, behaviour, refs, vals):
+def _val_ok(got, w):
+    if isinstance(w, float):
+        return isinstance(got, float) and math.isnan(got)
+    return is_sym(got) and z3.is_true(z3.simplify(got.e == w.e))
+
+
+def _seq_run(archs, behaviours, refs, vals):
+    """one evaluator, two evaluations in a row; returns everything observable"""
     from adsg_core import DSGEvaluator
     g, choice, opts, metrics = _mk_eval_graph(refs)
+    calls = []
+
+    class Ev(DSGEvaluator):
+        def _evaluate(self, dsg, metric_nodes):
+            k = len(calls)
+            calls.append(k)
+            out = {}
+            for i, m in enumerate(metrics):
+                if m not in metric_nodes:
+                    continue
+                if behaviours[k][i] == 'given':
+                    out[m] = vals[k][i]
+                elif behaviours[k][i] == 'nan':
+                    out[m] = math.nan
+            return out
+    ev = Ev(g)
+    inst1 = g.get_for_apply_selection_choice(choice, opts[archs[0]])
+    o1, c1 = ev.evaluate(inst1)
+    snap1 = (list(o1), list(c1))
+    inst2 = g.get_for_apply_selection_choice(choice, opts[archs[1]])
+    o2, c2 = ev.evaluate(inst2)
+    return dict(first=(o1, c1), snap=snap1, second=(o2, c2), stored1=[inst1.metric_value(m) for m in metrics],
+                stored2=[inst2.metric_value(m) for m in metrics], base=[g.metric_value(m) for m in metrics],
+                cnodes=[c.node for c in ev.constraints], onodes=[o.node for o in ev.objectives], metrics=metrics)
+
+
+def _seq_want(arch, behaviour, refs, vals):
+    w = [vals[i] if behaviour[i] == 'given' else math.nan for i in range(3)]
+    return [w[0]], [w[1], w[2] if arch == 1 else refs[1]], [w[0], w[1], w[2] if arch == 1 else None]
+
+
+def _run_evaluate_seq(inst, res):
+    archs = inst['archs']
+    refs = [sym_real('ref_c'), sym_real('ref_k')]
+    vals = [[sym_real('v1_o'), sym_real('v1_c'), sym_real('v1_k')], [sym_real('v2_o'), sym_real('v2_c'), sym_real('v2_k')]]
+    n = 0
+    for b1 in (('given',)*3, ('missing', 'nan', 'missing')):
+        for b2 in itertools.product(('given', 'missing', 'nan'), repeat=3):
+            ex = explore(lambda: _seq_run(archs, (b1, b2), refs, vals))
+            absorb(res, ex)
+            if not ex.complete or len(ex.paths) != 1 or ex.paths[0].kind == 'exc':
+                res['status'] = HARNESS_ERROR
+                res['notes'].append(f'{b1} {b2}: {ex.status} {[p.exc for p in ex.paths]}')
+                continue
+            v = ex.paths[0].value
+            mo, mc, mk = v['metrics']
+            problems = []
+            if v['onodes'] != [mo] or v['cnodes'] != [mc, mk]:
+                problems.append(f"objectives/constraints: {v['onodes']} {v['cnodes']}")
+            else:
+                for k, (arch, beh, key) in enumerate(((archs[0], b1, 'first'), (archs[1], b2, 'second'))):
+                    wo, wc, ws = _seq_want(arch, beh, refs, vals[k])
+                    o, c = v[key]
+                    if len(o) != 1 or len(c) != 2:
+                        problems.append(f'{key}: {o} {c}')
+                        continue
+                    for got, w in zip(list(o)+list(c), wo+wc):
+                        res['obligations'] += 1
+                        n += 1
+                        if _val_ok(got, w):
+                            res['discharged'] += 1
+                        else:
+                            problems.append(f'{key} evaluation (arch {arch}, evaluator {beh}): value {got} where {w} expected'
+                                            + (' [after the second evaluation]' if key == 'first' else ''))
+                    for i, (got, w) in enumerate(zip(v['stored1' if key == 'first' else 'stored2'], ws)):
+                        if w is not None and not _val_ok(got, w):
+                            problems.append(f'{key} instance metric_value[{i}] = {got}, expected {w}')
+                # the lists returned by the first call are not touched by the second
+                o1, c1 = v['first']
+                so, sc = v['snap']
+                if len(o1) != len(so) or len(c1) != len(sc) or any(a is not b and not (isinstance(a, float) and isinstance(b, float) and math.isnan(a) and math.isnan(b))
+                                                                   for a, b in zip(list(o1)+list(c1), so+sc)):
+                    problems.append(f'result of the first evaluation changed by the second: {so} {sc} -> {o1} {c1}')
+                if any(x is not None for x in v['base']):
+                    problems.append(f"evaluation stored values on the design space graph: {v['base']}")
+            if problems:
+                _viol(res, 'evaluate_seq', dict(kind='evaluate_seq', archs=archs, behaviours=[list(b1), list(b2)]), dict(archs=archs),
+                      dict(behaviours=[list(b1), list(b2)]), problems, 'each evaluation follows the contract on its own')
+            res['validated'] += 1
+    nat = _seq_native(archs, (('given',)*3, ('missing', 'given', 'nan')))
+    if nat:
+        _viol(res, 'evaluate_seq', dict(kind='evaluate_seq_native', archs=archs), dict(archs=archs),
+              dict(behaviours=[['given']*3, ['missing', 'given', 'nan']]), nat, 'each evaluation follows the contract on its own')
+    res['sample'] = dict(harness=inst['label'], behaviour_pairs=54, value_obligations=n)
+
+
+def _seq_native(archs, behaviours):
+    """native run with numbers; returns a list of problems"""
+    refs, vals = [1.5, -2.25], [[3., 4., 5.], [6., 7., 8.]]
+    v = _seq_run(archs, behaviours, refs, vals)
+    problems = []
+    for k, key in enumerate(('first', 'second')):
+        wo, wc, _ = _seq_want(archs[k], behaviours[k], refs, vals[k])
+        o, c = v[key]
+        if repr((list(o), list(c))) != repr((wo, wc)):
+            problems.append(f'{key} evaluation of arch {archs[k]} with evaluator {behaviours[k]}: {(o, c)}, expected {(wo, wc)}')
+    return problems
+
+
+def _evaluate_native(arch, behaviour, refs, vals, prestore=False):
+    from adsg_core import DSGEvaluator
+    g, choice, opts, metrics = _mk_eval_graph(refs)
+    if prestore:
+        for m_, s_ in zip(metrics, (97., 98., 99.)):
+            g.set_metric_value(m_, s_)
 
     class Ev(DSGEvaluator):
         def _evaluate(self, dsg, metric_nodes):
@@ -339,9 +589,38 @@ def replay(rec):
     if a['check'] == 'evaluate':
         arch = cfg['arch']
         beh = inp['behaviour']
-        nat = _evaluate_native(arch, beh, [1.5, -2.25], [3., 4., 5.])
+        nat = _evaluate_native(arch, beh, [1.5, -2.25], [3., 4., 5.], prestore=bool(cfg.get('prestore')))
         w = lambda i: [3., 4., 5.][i] if beh[i] == 'given' else math.nan  # noqa
         want = ([w(0)], [w(1), w(2) if arch == 1 else -2.25])
         print('evaluate ->', nat, 'expected', want)
         return repr(nat) != repr(want)
+    if a['check'] == 'evaluate_seq':
+        probs = _seq_native(cfg['archs'], [tuple(b) for b in inp['behaviours']])
+        print('evaluate twice with one evaluator ->', probs or 'as the contract says')
+        if not probs:  # list identity / stored values: repeat the observation natively
+            v = _seq_run(cfg['archs'], [tuple(b) for b in inp['behaviours']], [1.5, -2.25], [[3., 4., 5.], [6., 7., 8.]])
+            if repr((list(v['first'][0]), list(v['first'][1]))) != repr(v['snap']) or any(x is not None for x in v['base']):
+                print('first result after second call', v['first'], 'snapshot', v['snap'], 'base graph values', v['base'])
+                return True
+        return bool(probs)
+    if a['check'] == 'classify_multi':
+        nat = _multi_native(cfg['nodes'], inp['dirs'], inp['refs'])
+        want_status, roles = _multi_expected(cfg['nodes'])
+        print(f'nodes {cfg["nodes"]} dirs={inp["dirs"]} refs={inp["refs"]}: library -> {nat}; contract -> {want_status} {roles}')
+        if nat[0] != want_status:
+            return True
+        if nat[0] == 'error':
+            return False
+        def num(x):
+            return x['float'] if isinstance(x, dict) else x
+        if [o[0] for o in nat[1]] != [i for i, r in enumerate(roles) if r == 'obj'] or \
+                [c[0] for c in nat[2]] != [i for i, r in enumerate(roles) if r == 'con']:
+            return True
+        for i, sign in nat[1]:
+            if sign != (-1 if num(inp['dirs'][i]) <= 0 else 1):
+                return True
+        for i, sign, ref in nat[2]:
+            if sign != (-1 if num(inp['dirs'][i]) <= 0 else 1) or ref != float(num(inp['refs'][i])):
+                return True
+        return False
     return True
